@@ -1,6 +1,8 @@
 /* kind bits: jls_bit_copy of /repo/src/bit_shift.c called directly on exactly-sized
  * malloc'ed buffers (so that the ASan build turns any access outside them into a fault).
  *   c <dst_hex|-> <dst_bit> <src_hex|-> <src_bit> <bit_count>     (numbers decimal; - = empty buffer)
+ *   n <same fields>      the same without the forked child (a fault ends the process; used for
+ *                        cases that must not fault, because fork under ASan costs ~50 ms)
  *        -> the destination buffer after the call as hex (- when empty), or
  *           FAULT ASAN / FAULT SIG<n> / FAULT TIMEOUT / FAULT EXIT<n>
  *   consts
@@ -10,9 +12,13 @@
 #include "jls/core.h"
 #include <math.h>
 
-static uint8_t * bits_decode_exact(const char * s, size_t * len_out) {
+/* exactly n bytes; an empty buffer is the one-past-the-end pointer of a 1-byte object, because
+ * ASan does not report an access to the first byte of a malloc(0) object */
+static uint8_t * bits_decode_exact(const char * s, size_t * len_out, uint8_t ** base) {
     size_t n = (s[0] == '-') ? 0 : strlen(s) / 2;
-    uint8_t * b = malloc(n);         /* exactly n bytes (malloc(0): zero-sized object) */
+    uint8_t * b = malloc(n ? n : 1);
+    *base = b;
+    if (!n) b += 1;
     for (size_t i = 0; i < n; ++i) b[i] = (uint8_t) ((hexval(s[2 * i]) << 4) | hexval(s[2 * i + 1]));
     *len_out = n;
     return b;
@@ -23,15 +29,16 @@ static int bits_case(char * line) {
     for (char * p = strtok(line, " "); p && nt < 6; p = strtok(NULL, " ")) tok[nt++] = p;
     if (nt != 6) { printf("?\n"); return 0; }
     size_t dn, sn;
-    uint8_t * dst = bits_decode_exact(tok[1], &dn);
-    uint8_t * src = bits_decode_exact(tok[3], &sn);
+    uint8_t * dbase, * sbase;
+    uint8_t * dst = bits_decode_exact(tok[1], &dn, &dbase);
+    uint8_t * src = bits_decode_exact(tok[3], &sn, &sbase);
     uint64_t dst_bit = strtoull(tok[2], NULL, 10);
     uint64_t src_bit = strtoull(tok[4], NULL, 10);
     uint64_t cnt = strtoull(tok[5], NULL, 10);
     jls_bit_copy(dst, dst_bit, src, src_bit, cnt);
     if (dn == 0) printf("-"); else hex_print(dst, dn);
     printf("\n");
-    free(dst); free(src);
+    free(dbase); free(sbase);
     return 0;
 }
 
@@ -46,6 +53,8 @@ KIND(bits) {
             printf(" nan64=");
             hex_print((const uint8_t *) &d, sizeof(d));
             printf("\n");
+        } else if (line[0] == 'n') {
+            bits_case(line);
         } else if (line[0] == 'c') {
             fflush(stdout);
             pid_t pid = fork();
